@@ -2,7 +2,7 @@
 
 from . import excs
 
-DEST_EXCS = [excs.DestFault, excs.DestFaultBadStr, excs.BadStrRaisesBase, ValueError, KeyError, OSError, UnicodeError, excs.DeepUserError, excs.RemoteError]
+DEST_EXCS = [excs.DestFault, excs.DestFaultBadStr, excs.BadStrRaisesBase, ValueError, KeyError, OSError, UnicodeError, excs.DeepUserError, excs.RemoteError, excs.Outer.NestedError, excs.make_local_error_class()]
 
 
 def gen_mask(rng, horizon):
